@@ -439,8 +439,9 @@ private:
                            , std::ptrdiff_t y
                            )
     {
+        // buf holds one whole row of the image, y is its row number in the image
         if(  y >= this->_settings._top_left.y
-          && y <  this->_settings._dim.y
+          && y <  this->_settings._top_left.y + this->_settings._dim.y
           )
         {
             typename Buffer::const_iterator beg = buf.begin() + this->_settings._top_left.x;
@@ -448,7 +449,7 @@ private:
 
             std::copy( beg
                      , end
-                     , view.row_begin( y )
+                     , view.row_begin( y - this->_settings._top_left.y )
                      );
         }
     }
@@ -469,7 +470,8 @@ private:
         std::size_t stream_pos = this->_info._offset;
 
         using Buf_type = std::vector<rgba8_pixel_t>;
-        Buf_type buf( this->_settings._dim.x );
+        // the run length data addresses whole rows of the image, also when only a part of it is requested
+        Buf_type buf( this->_info._width );
         Buf_type::iterator dst_it  = buf.begin();
         Buf_type::iterator dst_end = buf.end();
 
@@ -481,11 +483,11 @@ private:
         // but in this case the bottom left corner is the first pixel of the last row of bitmap data.
         // - "Programming Windows", 5th Ed. by Charles Petzold explains Windows docs ambiguities.
         std::ptrdiff_t ybeg = 0;
-        std::ptrdiff_t yend = this->_settings._dim.y;
+        std::ptrdiff_t yend = this->_info._height;
         std::ptrdiff_t yinc = 1;
         if( this->_info._height > 0 )
         {
-            ybeg = this->_settings._dim.y - 1;
+            ybeg = this->_info._height - 1;
             yend = -1;
             yinc = -1;
         }
